@@ -115,6 +115,8 @@ class CWorld:
         os.makedirs(os.path.join(scratch, "files"), exist_ok=True)
         self.ref = h5py.File(os.path.join(scratch, "ref", "plain.h5"), "w")
         self.meta = {}  # path -> {schema name -> {"name","version","json"}}
+        self.focus = None  # property under check (set by execute)
+        self.deferred = []
         self.kept_node = None
         self.held = {}  # driver kind -> (path, MetadorMeta handle kept over consecutive meta ops)
         self.packed = {}  # path -> hex of bytes
@@ -561,6 +563,25 @@ class CWorld:
             for k in exp:
                 if k not in g:
                     raise Violation("C08", "membership", f"[{dv.kind}] {k!r} in {p} is False")
+        # lookups that run through a dataset: absent on the plain tree ("in" False, get None, [] raises)
+        for p, ent in sorted(want.items())[: 3 + self.steps % 3]:
+            if ent[0] != "d":
+                continue
+            q = p + "/x"
+            try:
+                a = q in dv.mc
+                b = dv.mc.get(q)
+            except Exception as e:
+                raise Violation("C09", "lookup-through-dataset", f"[{dv.kind}] membership test / get of {q} (below a dataset) raised {type(e).__name__}: {e}; the plain tree answers False / None", shape="raised")
+            if a or b is not None:
+                raise Violation("C09", "lookup-through-dataset", f"[{dv.kind}] {q} (below a dataset): in -> {a}, get -> {b!r}", shape="found")
+            try:
+                dv.mc[q]
+                raise Violation("C09", "lookup-through-dataset", f"[{dv.kind}] container[{q!r}] (below a dataset) did not raise", shape="getitem")
+            except Violation:
+                raise
+            except Exception:
+                pass
 
     # ------------------------------------------------------------ applying ops
 
@@ -866,7 +887,11 @@ class CWorld:
             fresh = self.index_snapshot(dv.mc)
             if fresh != snaps[dv.kind]:
                 diff = [k for k in fresh if fresh[k] != snaps[dv.kind][k]]
-                raise Violation("C06", "index-after-reopen", f"[{dv.kind}] index reported after reopen differs from the one before closing in {diff}", shape=",".join(diff))
+                v = Violation("C06", "index-after-reopen", f"[{dv.kind}] index reported after reopen differs from the one before closing in {diff}", shape=",".join(diff))
+                if self.focus in (None, "C06"):
+                    raise v
+                if len(self.deferred) < 6 and not any((d["prop"], d["oracle"]) == ("C06", "index-after-reopen") for d in self.deferred):
+                    self.deferred.append(dict(v.v))  # passive observation of another property: go on
         # handles of restricted actors die with the container
         for a in self.actors.values():
             a["handles"] = {k: [] for k in a["handles"]}
@@ -949,6 +974,16 @@ class CWorld:
                 if raw is not None:
                     run(self.check_packed, dv, raw)
                 run(self.check_query_battery, dv)
+        if found and self.focus is not None and not any(f["prop"] == self.focus for f in found):
+            # observations that belong to other properties only: remember them and let the run
+            # go on - ending it here would hide the symptom of the property under check
+            for f in found:
+                if len(self.deferred) < 6 and not any((d["prop"], d["oracle"]) == (f["prop"], f["oracle"]) for d in self.deferred):
+                    self.deferred.append(dict(f))
+            self.probe("foreign_observation_deferred")
+            return want
+        if found and self.focus is not None:
+            found.sort(key=lambda f: f["prop"] != self.focus)  # stable: the checked property's symptom first
         if found:
             v = Violation(found[0]["prop"], found[0]["oracle"], found[0]["detail"], found[0].get("shape", ""))
             seen = {(found[0]["prop"], found[0]["oracle"])}
@@ -1307,6 +1342,7 @@ class ContainerEngine:
 
     def execute(self, case, scratch):
         w = CWorld(scratch, case.get("cfg", {}), case.get("tag", "replay"))
+        w.focus = case.get("prop")
         viol, log = [], []
         try:
             try:
@@ -1335,6 +1371,9 @@ class ContainerEngine:
                 viol.append(v)
         finally:
             w.shutdown()
+        for d in w.deferred:
+            if not any((x["prop"], x["oracle"]) == (d["prop"], d["oracle"]) for x in viol):
+                viol.append(dict(d, step=len(log)))
         kinds = [o["op"] for o in case["ops"]]
         try:
             final = sorted(w.meta) + sorted(w.packed)
@@ -1753,6 +1792,14 @@ def closure_check(w, dv, h, tokens):
                 rd(f"attrs.get({k!r})", lambda k=k: x.attrs.get(k))
             if not (hasattr(x, "keys") and hasattr(x, "create_group")):
                 rd("[()]", lambda: x[()])
+                # the other ways Python offers to look into a sequence-like object: any answer
+                # (also "False") is information about the contents
+                for what, fn in (("reversed()", lambda: list(reversed(x))), ("iter()", lambda: list(x)), ("bytes()", lambda: bytes(x)), ("contains", lambda: 1 in x), ("[0]", lambda: x[0]), ("[...]", lambda: x[...])):
+                    try:
+                        fn()
+                    except Exception:
+                        continue
+                    raise Violation("C15", "skel-only-leak", f"[{dv.kind}] {what} on dataset {x.name} (reached via {prim} from skel_only node {node.name}) answered instead of being refused", shape=what)
             for k in mkeys:
                 rd(f"meta[{k!r}]", lambda k=k: x.meta[k])
                 rd(f"meta.get({k!r})", lambda k=k: x.meta.get(k))
